@@ -1,4 +1,5 @@
 import PytezosModel.Proofs.C13
+import PytezosModel.Proofs.C13Py
 /-! C13 — entrypoint resolution and parameter decoding are mutual inverses.
 
 Mirror: `Impl.Entrypoints` (`ParameterSection.create_type` root name, `list_entrypoints`, `from_parameters`,
@@ -14,7 +15,12 @@ for every listed entrypoint and argument, building the full value and converting
 
 Domain: all `or` trees with any placement of annotations (inner nodes, leaves, root, `default`, `root`, empty
 annotation), all values; no depth bound.  Types in which two branches carry the same name are ill-formed in Tezos;
-`ill_formed_rejected` shows the listing refuses them. -/
+`ill_formed_rejected` shows the listing refuses them.
+
+Extension (sections 4–6 below; theorems 1–3 are unchanged): `:type` annotations, several annotations on one node, unions
+below non-union nodes, and the Python-object form of a call (`Michelson/EntrypointsPy.lean`).  `QTy` is the matched type
+with `field_name` and `type_name` on every node, `q.erase : PTy` what the entrypoint functions read of it; `RTy` is the
+type expression as written (raw annotation lists, `pair` / `option` / `list` nodes with unions below them). -/
 namespace C13
 open Impl.Entrypoints Spec.Entrypoints
 
@@ -101,6 +107,161 @@ theorem fromParams_toParams_leaf_exact (c : Cfg) (hc : cfg? = some c) (p : PTy) 
     ∃ v, fromParameters c p e (.leaf t x) = .ok v ∧ toParameters c p v = .ok (e, .leaf t x) :=
   toParameters_fromParameters_leaf c (cfg_deepest hc).1 (cfg_deepest hc).2 hwf hl hm hne
 
+/-! ### 4. the Python-object form of a call (`ParameterSection.from_python_object`, what `contract.<entrypoint>(arg)` uses) -/
+
+/-- For every listed entrypoint `e : τ` the call `{e: obj}` is decoded as: read `obj` with the Python-object reader of the
+branch called `e` (a node `qn` of the parameter type whose type is `τ`; `fromPy`, for non-union types the subject of
+C12), then `from_parameters(e, ·)` — for EVERY object (errors of the reader included), whatever `:type` names the
+nodes carry: `e` is resolved among the entrypoint names only, never among the display names of the union's leaves
+(`%field`, else `:type`, else generated), even when a `:type` name equals an entrypoint name. -/
+theorem fromPythonObject_eq_fromParameters (c : Cfg) (_hc : cfg? = some c) (q : QTy) (hwf : WellFormed q.erase)
+    (d : List (String × PTy)) (hl : listEntrypoints c q.erase = .ok d) (e : String) (τ : PTy) (hm : (e, τ) ∈ d) :
+    ∃ path qn, nodeAtQ q path = some qn ∧ qn.erase.anon = τ.anon ∧
+      ∀ o, fromPythonObject c q (.dict1 e o) = (fromPy qn o).bind (fun a => fromParameters c q.erase e a) := by
+  rcases mem_listEntrypoints c hwf hl hm with ⟨he, hτ⟩ | ⟨hne, path, arg, hq, he, hτ⟩
+  · subst hτ he
+    exact ⟨[], q, by cases q <;> rfl, rfl, fun o => fromPythonObject_root c hwf o⟩
+  · subst he
+    obtain ⟨qn, hqn, hqe, hcall⟩ := fromPythonObject_branch c hwf hq hne
+    refine ⟨path, qn, hqn, ?_, hcall⟩
+    rw [hqe, hτ]; cases arg <;> rfl
+
+/-- … in the form of the brief: an object that reads as the argument `a` gives the full value `from_parameters(e, a)`
+gives; and `a` is an argument of the listed type -/
+theorem fromPythonObject_call (c : Cfg) (hc : cfg? = some c) (q : QTy) (hwf : WellFormed q.erase)
+    (d : List (String × PTy)) (hl : listEntrypoints c q.erase = .ok d) (e : String) (τ : PTy) (hm : (e, τ) ∈ d) :
+    ∃ path qn, nodeAtQ q path = some qn ∧ qn.erase.anon = τ.anon ∧
+      ∀ o a, fromPy qn o = .ok a →
+        hasTy a τ = true ∧ fromPythonObject c q (.dict1 e o) = fromParameters c q.erase e a := by
+  obtain ⟨path, qn, hn, han, hcall⟩ := fromPythonObject_eq_fromParameters c hc q hwf d hl e τ hm
+  refine ⟨path, qn, hn, han, fun o a ho => ⟨?_, ?_⟩⟩
+  · have := fromPy_hasTy ho
+    rw [← hasTy_anon, han, hasTy_anon] at this; exact this
+  · rw [hcall o, ho]; rfl
+
+/-- for an entrypoint of non-union type the object of the argument is the argument's own (opaque) Python object: the
+call `{e: obj(a)}` and `from_parameters(e, a)` agree outright -/
+theorem fromPythonObject_leaf (c : Cfg) (hc : cfg? = some c) (q : QTy) (hwf : WellFormed q.erase)
+    (d : List (String × PTy)) (hl : listEntrypoints c q.erase = .ok d) (e : String) (ann : Option String) (t x : Nat)
+    (hm : (e, .leaf ann t) ∈ d) :
+    fromPythonObject c q (.dict1 e (.leaf t x)) = fromParameters c q.erase e (.leaf t x) := by
+  obtain ⟨path, qn, _, han, hcall⟩ := fromPythonObject_call c hc q hwf d hl e _ hm
+  cases qn with
+  | or f tn l r => simp [QTy.erase, PTy.anon] at han
+  | leaf f tn p ty =>
+    simp only [QTy.erase, PTy.anon, PTy.leaf.injEq, true_and] at han
+    subst han
+    exact (hcall (.leaf ty x) (.leaf ty x) (by simp [fromPy])).2
+
+/-- so on these calls nothing depends on the `:type` names (nor on the `prim` the generated display names are made of) -/
+theorem fromPythonObject_typeNames_irrelevant (c : Cfg) (hc : cfg? = some c) (q q' : QTy) (hq : q.erase = q'.erase)
+    (hwf : WellFormed q.erase) (d : List (String × PTy)) (hl : listEntrypoints c q.erase = .ok d) (e : String)
+    (ann : Option String) (t x : Nat) (hm : (e, .leaf ann t) ∈ d) :
+    fromPythonObject c q (.dict1 e (.leaf t x)) = fromPythonObject c q' (.dict1 e (.leaf t x)) := by
+  rw [fromPythonObject_leaf c hc q hwf d hl e ann t x hm,
+    fromPythonObject_leaf c hc q' (hq ▸ hwf) d (hq ▸ hl) e ann t x hm, hq]
+
+/-- `contract.<entrypoint>()` with no argument: the string form is the call with `Unit` -/
+theorem fromPythonObject_str (c : Cfg) (q : QTy) (e : String) :
+    fromPythonObject c q (.str e) = fromPythonObject c q (.dict1 e .unit) := rfl
+
+/-! ### 5. several annotations on one node (`Micheline.match` → `create_type` → `parse_name`) -/
+
+/-- `Micheline.match` accepts a type expression exactly when every node has at most one `%` and at most one `:`
+annotation and no argument of `option` / `list` has a `%` annotation (`RawOk`; Tezos rejects the others too); what the
+entrypoint functions then see is `view r`: the unions down to the first non-union node, every node under its single
+`%` name — `:type`, `@var` and the position of the `%` annotation in the list play no role. -/
+theorem matchTy_eq_spec (r : RTy) :
+    match matchTy r with
+    | .ok q => RawOk r = true ∧ q.erase = view r
+    | .error e => RawOk r = false ∧ e = .rejectedType := by
+  have := matchTy_spec r
+  cases h : matchTy r with
+  | ok q => rw [h] at this; exact ⟨this.1, this.2.1⟩
+  | error e => rw [h] at this; exact this
+
+/-- the order of the annotations on a node and annotations that are neither `%field` nor `:type` do not matter -/
+theorem matchTy_annotation_order (r r' : RTy) (h : SameUpToAnnotOrder r r') : matchTy r = matchTy r' :=
+  matchTy_sameUpToAnnotOrder h
+
+/-- theorems 1–3 transported to type expressions as written: on an accepted expression the three API functions are
+those of `view r` (so every statement above holds with `p := view r`), on a rejected one all three refuse -/
+theorem raw_api_eq_view (c : Cfg) (r : RTy) :
+    (RawOk r = true → listEntrypointsRaw c r = listEntrypoints c (view r)
+      ∧ (∀ e v, fromParametersRaw c r e v = fromParameters c (view r) e v)
+      ∧ (∀ v, toParametersRaw c r v = toParameters c (view r) v))
+    ∧ (RawOk r = false → listEntrypointsRaw c r = .error .rejectedType
+      ∧ (∀ e v, fromParametersRaw c r e v = .error .rejectedType)
+      ∧ (∀ v, toParametersRaw c r v = .error .rejectedType)) := by
+  have := matchTy_eq_spec r
+  unfold listEntrypointsRaw fromParametersRaw toParametersRaw
+  cases h : matchTy r with
+  | ok q =>
+    rw [h] at this
+    obtain ⟨h1, h2⟩ := this
+    refine ⟨fun _ => ?_, fun hh => (by rw [h1] at hh; cases hh)⟩
+    simp [bind, Except.bind, h2]
+  | error e =>
+    rw [h] at this
+    obtain ⟨h1, h2⟩ := this
+    refine ⟨fun hh => (by rw [h1] at hh; cases hh), fun _ => ?_⟩
+    simp [bind, Except.bind, h2]
+
+/-- 1. for type expressions as written -/
+theorem listEntrypointsRaw_eq_spec (c : Cfg) (hc : cfg? = some c) (r : RTy) (hr : RawOk r = true) :
+    match listEntrypointsRaw c r, entrypoints c.dflt c.root (view r) with
+    | .ok d, some s => d.Perm s ∧ (d.map (·.1)).Nodup
+    | .error e, none => e = .duplicateKey
+    | _, _ => False := by
+  rw [((raw_api_eq_view c r).1 hr).1]
+  exact listEntrypoints_eq_spec c hc (view r)
+
+/-! ### 6. unions below non-union nodes: their annotated branches are not entrypoints -/
+
+/-- the entrypoint names of a type expression, stated on the expression itself: the `%` names of the nodes reached from
+the root through `or` nodes only (the root excluded) -/
+def rawBranchNames : RTy → List String
+  | .or as l r => (match named (fieldAnnots as).head? with | some n => [n] | none => []) ++ (rawBranchNames l ++ rawBranchNames r)
+  | .prim as _ _ => match named (fieldAnnots as).head? with | some n => [n] | none => []
+  | .pair as _ _ _ => match named (fieldAnnots as).head? with | some n => [n] | none => []
+  | .option as _ _ => match named (fieldAnnots as).head? with | some n => [n] | none => []
+  | .list as _ _ => match named (fieldAnnots as).head? with | some n => [n] | none => []
+
+theorem branches_view (r : RTy) : (branches (view r)).map (·.1) = rawBranchNames r := by
+  induction r with
+  | or as l r ihl ihr =>
+    simp only [view, branches, rawBranchNames, List.map_append, ihl, ihr]
+    cases named (fieldAnnots as).head? <;> rfl
+  | prim as p ty => simp only [view, branches, rawBranchNames]; cases named (fieldAnnots as).head? <;> rfl
+  | pair as ty l r => simp only [view, branches, rawBranchNames]; cases named (fieldAnnots as).head? <;> rfl
+  | option as ty a => simp only [view, branches, rawBranchNames]; cases named (fieldAnnots as).head? <;> rfl
+  | list as ty a => simp only [view, branches, rawBranchNames]; cases named (fieldAnnots as).head? <;> rfl
+
+/-- every listed name is the root name or the `%` name of a node reached through unions only — a name annotated below
+a `pair` / `option` / `list` is listed only if it is also one of those -/
+theorem listed_names_stop_at_non_union (c : Cfg) (hc : cfg? = some c) (l r : RTy) (as : List String)
+    (hr : RawOk (.or as l r) = true) (d : List (String × PTy)) (hl : listEntrypointsRaw c (.or as l r) = .ok d)
+    (e : String) (he : e ∈ d.map (·.1)) :
+    e = rootName c.dflt c.root (view (.or as l r)) ∨ e ∈ rawBranchNames l ++ rawBranchNames r := by
+  have h1 := listEntrypointsRaw_eq_spec c hc (.or as l r) hr
+  rw [hl] at h1
+  cases hs : entrypoints c.dflt c.root (view (.or as l r)) with
+  | none => rw [hs] at h1; exact absurd h1 (by simp)
+  | some s =>
+    rw [hs] at h1
+    have hmem : e ∈ s.map (·.1) := (h1.1.map (·.1)).mem_iff.mp he
+    unfold entrypoints at hs
+    split at hs
+    · cases hs
+      simp only [List.map_append, List.map_cons, List.map_nil, List.mem_append, List.mem_singleton] at hmem
+      rcases hmem with hm | hm
+      · right
+        have : e ∈ (properBranches (view (.or as l r))).map (·.1) :=
+          (List.filter_sublist.map _).subset hm
+        simpa [view, properBranches, List.map_append, branches_view] using this
+      · left; exact hm
+    · cases hs
+
 /-! non-vacuity: the two recorded inputs (annotated inner node over unannotated leaves; unannotated leaf next to
 annotated ones), the `default`/`root` clash, and what the pinned-tree configuration does on them -/
 def cfgNow : Cfg := ⟨true, true, "default", "root"⟩
@@ -120,5 +281,44 @@ example : toParameters ⟨false, false, "default", "root"⟩ tyA (.left (.left (
 example : toParameters ⟨false, false, "default", "root"⟩ tyB (.right (.right (.leaf 0 0))) = .error .keyError := by decide
 example : (toParameters ⟨true, false, "default", "root"⟩ tyC (.right (.leaf 2 5))).bind
     (fun ea => fromParameters ⟨true, false, "default", "root"⟩ tyC ea.1 ea.2) = .error .badValue := by decide
+
+/-! non-vacuity of the extension: `:type` names equal to entrypoint names, several annotations on a node, unions below
+a `pair` -/
+/-- `or (nat %a) (or %b (string :a) (unit :b))`: the display names of the leaves are `a`, `string_1` (`:a` is taken), `b` -/
+def qA : QTy := .or none none (.leaf (some "a") none "nat" 1)
+  (.or (some "b") none (.leaf none (some "a") "string" 2) (.leaf none (some "b") "unit" 0))
+
+example : WellFormed qA.erase := by decide
+example : listEntrypoints cfgNow qA.erase = .ok [("a", .leaf none 1), ("b", .or none (.leaf none 2) (.leaf none 0)),
+    ("default", qA.erase)] := by decide
+example : displayPathToKey qA = [([false], "a"), ([true, false], "string_1"), ([true, true], "b")] := by decide
+-- the call `{'b': {'b': Unit}}`: the outer `b` is the entrypoint (the union), the inner `b` the display name of its unit leaf
+example : fromPythonObject cfgNow qA (.dict1 "b" (.dict1 "b" .unit)) = .ok (.right (.right (.leaf 0 0))) := by decide
+example : fromParameters cfgNow qA.erase "b" (.right (.leaf 0 0)) = .ok (.right (.right (.leaf 0 0))) := by decide
+-- `{'a': 5}` is the entrypoint `a` (the nat leaf), not the leaf whose `:type` name is `a`
+example : fromPythonObject cfgNow qA (.dict1 "a" (.leaf 1 5)) = .ok (.left (.leaf 1 5)) := by decide
+-- a display name that is no entrypoint is refused
+example : fromPythonObject cfgNow qA (.dict1 "string_1" (.leaf 2 5)) = .error .keyError := by decide
+-- the whole parameter under the root name, read by the union's own reader (display names)
+example : fromPythonObject cfgNow qA (.dict1 "default" (.dict1 "string_1" (.leaf 2 5))) = .ok (.right (.left (.leaf 2 5))) := by decide
+example : toPythonObject cfgNow qA (.right (.left (.leaf 2 5))) = .ok (.dict1 "string_1" (.leaf 2 5)) := by decide
+
+/-- `or (pair %p (or (nat %default) (string %x)) nat) (nat :t %q @v)`: the names below the pair are no entrypoints (and
+`%default` there does not make the root entrypoint `root`) -/
+def rA : RTy := .or [] (.pair ["%p"] 5 (.or [] (.prim ["%default"] "nat" 1) (.prim ["%x"] "string" 2)) (.prim [] "nat" 1))
+  (.prim [":t", "%q", "@v"] "nat" 1)
+
+example : RawOk rA = true := by decide
+example : view rA = .or none (.leaf (some "p") 5) (.leaf (some "q") 1) := by decide
+example : listEntrypointsRaw cfgNow rA
+    = .ok [("p", .leaf none 5), ("q", .leaf none 1), ("default", .or none (.leaf (some "p") 5) (.leaf (some "q") 1))] := by decide
+example : SameUpToAnnotOrder rA (.or ["@x"] (.pair ["%p"] 5 (.or [] (.prim ["%default"] "nat" 1) (.prim ["%x"] "string" 2)) (.prim [] "nat" 1))
+    (.prim ["%q", ":t"] "nat" 1)) := by
+  refine .or ?_ (.pair ?_ (.or ?_ (.prim ?_) (.prim ?_)) (.prim ?_)) (.prim ?_) <;> decide
+-- two `%` annotations, two `:` annotations, a `%` annotation on the argument of `option`: refused
+example : matchTy (.or [] (.prim ["%a", "%b"] "nat" 1) (.prim [] "nat" 1)) = .error .rejectedType := by decide
+example : matchTy (.prim [":s", "@v", ":s"] "nat" 1) = .error .rejectedType := by decide
+example : matchTy (.option [] 8 (.prim ["%x"] "nat" 1)) = .error .rejectedType := by decide
+example : RawOk (.or [] (.prim ["%a", "%b"] "nat" 1) (.prim [] "nat" 1)) = false := by decide
 
 end C13
